@@ -302,10 +302,32 @@ func (g *gen) file(rec *PlayRec) {
 	s := smf.NewSMF1()
 	s.TimeFormat = smf.MetricTicks(res)
 	total, maxTick := 0, 0
+	// "twin" tracks start with the same run of channel messages on tick 0: on a shared port the observer
+	// cannot tell which track a send came from, and a wrong guess only fails some sends later
+	var twin [][]byte
+	if ntr > 1 && r.Intn(3) == 0 {
+		g.feat["twin_prefix"] = true
+		for i := 2 + r.Intn(4); i > 0; i-- {
+			twin = append(twin, g.freshChan())
+		}
+		if r.Intn(2) == 0 {
+			twin = append(twin, twin[0], twin[0])
+		}
+	}
 	for t := 0; t < ntr; t++ {
 		var tr smf.Track
 		if t == 0 && !noTempo {
 			tr.Add(0, smf.MetaTempo(bpm))
+		}
+		if twin != nil && (t < 2 || r.Intn(2) == 0) {
+			k := len(twin)
+			if r.Intn(4) == 0 {
+				k-- // one of the twins is shorter
+			}
+			for _, m := range twin[:k] {
+				tr.Add(0, m)
+			}
+			total += k
 		}
 		n := 0
 		switch r.Intn(6) {
